@@ -55,6 +55,7 @@ CONSTANTS
   Weak_BackwardsUnbound,          \* backwards() never compares the verified chain's end with the target header
   Weak_ReplacementHashUnchecked,  \* after replacing the primary its block is not compared with the target header
   Weak_DivergentHeaderExaminedOncePerRun, \* detectDivergence examines a divergent header only for the first witness reporting it
+  Weak_LaggingWitnessEqualTimeBenign, \* a lagging witness whose head has EXACTLY the primary header's time is "behind", not conflicting
   Weak_PartialTraceOnBenignError, \* verifySkipping returns the partial trace (not nil) when the next pivot cannot be fetched
   Weak_PromotedWitnessStays       \* findNewPrimary leaves the promoted provider in the witness list when
                                   \* removing it would empty the list (shipped behaviour; scenario flag cfg.rollback)
@@ -313,7 +314,14 @@ HashCompare(sc, T, b, w) ==
   ELSE <<Reply("conflict", b, w)>>
 
 \* compareNewHeaderWithWitness: the sequence of values this witness' goroutine sends  [x, rep]
-CompareWithWitness(sc, x, w, T) ==
+\* The witness' head is BELOW the primary's header height.  Block time strictly increases with
+\* height, so a lower block that is NOT EARLIER in time than the primary's header conflicts with
+\* it: `!lightBlock.Time.Before(h.Time)` -- equal times included.  (strict = the statement's
+\* reading, used for the ghost set of backing witnesses whatever the weak switches say.)
+LagConflict(strict, wt, ht) ==
+  IF ~strict /\ Weak_LaggingWitnessEqualTimeBenign THEN wt > ht ELSE ~(wt < ht)
+
+CompareWithWitness(sc, x, w, T, strict) ==
   LET th == B(sc, T).h
       a  == Ask(sc, x, w, th) IN
   IF IsBlk(sc, a.r) THEN [x |-> a.x, rep |-> HashCompare(sc, T, a.r, w)]
@@ -322,12 +330,12 @@ CompareWithWitness(sc, x, w, T) ==
        LET g1 == GetTargetOrLatest(sc, a.x, w, th) IN
        IF g1.err # Nil THEN [x |-> g1.x, rep |-> <<Reply("benign", Nil, w)>>]   \* raw provider error
        ELSE IF g1.isT THEN [x |-> g1.x, rep |-> HashCompare(sc, T, g1.b, w)]
-       ELSE IF ~(B(sc, g1.b).t < B(sc, T).t) THEN [x |-> g1.x, rep |-> <<Reply("conflict", g1.b, w)>>]
+       ELSE IF LagConflict(strict, B(sc, g1.b).t, B(sc, T).t) THEN [x |-> g1.x, rep |-> <<Reply("conflict", g1.b, w)>>]
        ELSE \* time.Sleep(2*maxClockDrift + maxBlockLag), then once more
             LET g2 == GetTargetOrLatest(sc, g1.x, w, th) IN
             IF g2.err # Nil THEN [x |-> g2.x, rep |-> <<Reply("bad", Nil, w)>>]  \* errBadWitness
             ELSE IF g2.isT THEN [x |-> g2.x, rep |-> HashCompare(sc, T, g2.b, w)]
-            ELSE IF ~(B(sc, g2.b).t < B(sc, T).t) THEN [x |-> g2.x, rep |-> <<Reply("conflict", g2.b, w)>>]
+            ELSE IF LagConflict(strict, B(sc, g2.b).t, B(sc, T).t) THEN [x |-> g2.x, rep |-> <<Reply("conflict", g2.b, w)>>]
             ELSE [x |-> g2.x, rep |-> <<Reply("benign", Nil, w)>>]               \* provider.ErrNoResponse
   ELSE [x |-> a.x, rep |-> <<Reply("bad", Nil, w)>>]                            \* errBadWitness
 
@@ -383,11 +391,11 @@ HandleConflict(sc, x, ptrace, wb, w, now) ==
 RECURSIVE Channel(_, _)
 Channel(order, rep) == IF order = << >> THEN << >> ELSE rep[Head(order)] \o Channel(Tail(order), rep)
 
-RECURSIVE CompareAll(_, _, _, _, _, _)
-CompareAll(sc, x, wits, T, i, acc) ==
+RECURSIVE CompareAll(_, _, _, _, _, _, _)
+CompareAll(sc, x, wits, T, i, acc, strict) ==
   IF i > Len(wits) THEN [x |-> x, rep |-> acc]
-  ELSE LET c == CompareWithWitness(sc, x, wits[i], T) IN
-       CompareAll(sc, c.x, wits, T, i + 1, acc @@ (wits[i] :> c.rep))
+  ELSE LET c == CompareWithWitness(sc, x, wits[i], T, strict) IN
+       CompareAll(sc, c.x, wits, T, i + 1, acc @@ (wits[i] :> c.rep), strict)
 
 \* detectDivergence: the loop reads exactly len(witnesses) values  [x, res]
 \* The verdict on a conflicting header is PER (witness, header): every witness that reports a
@@ -431,8 +439,11 @@ Detect(sc, x0, trace, now, sched) ==
   IF Len(trace) < 2 THEN [x |-> x0, res |-> "NilTrace"]
   ELSE IF Len(x0.cl.wits) = 0 THEN [x |-> x0, res |-> "NoWitnesses"]
   ELSE LET x == [x0 EXCEPT !.ph = "det", !.tr = trace, !.fan = @ + 1]
-           c == CompareAll(sc, x, x.cl.wits, trace[Len(trace)], 1, << >>)
-           y == [c.x EXCEPT !.att = Attackers(sc, c.x, trace, c.rep, now)] IN
+           c == CompareAll(sc, x, x.cl.wits, trace[Len(trace)], 1, << >>, FALSE)
+           \* the ghost is judged on the statement's reading of "conflicting witness"
+           g == IF Weak_LaggingWitnessEqualTimeBenign
+                THEN CompareAll(sc, x, x.cl.wits, trace[Len(trace)], 1, << >>, TRUE) ELSE c
+           y == [c.x EXCEPT !.att = Attackers(sc, g.x, trace, g.rep, now)] IN
        DetectLoop(sc, y, trace, Channel(OrderAt(sched, x, x.cl.wits), c.rep), 1, FALSE, {}, now, {})
 
 \* ------------------------------------------------------------------ client.go verification modes
@@ -502,7 +513,14 @@ VerifyLightBlock(sc, x, l, now, sched) ==
                  IF sc.cfg.mode = "seq" THEN VerifySequential(sc, x, cl.latest, l, now, sched)
                  ELSE VerifySkippingAgainstPrimary(sc, x, cl.latest, l, now, sched)
             ELSE IF B(sc, l).h < B(sc, FirstStored(sc, cl)).h THEN
-                 Backwards(sc, x, FirstStored(sc, cl), l, sched)
+                 \* the hash chain binds the header only; the light block is stored with its
+                 \* validator set and commit, so after backwards() the block is validated and its
+                 \* commit verified against its own validator set (plain errors)
+                 LET bw == Backwards(sc, x, FirstStored(sc, cl), l, sched) IN
+                 IF bw.res # Nil THEN bw
+                 ELSE IF ~(B(sc, l).wf /\ B(sc, l).vh = B(sc, l).vsh) THEN [x |-> bw.x, res |-> "other"]
+                 ELSE IF VerifyCommitLight(B(sc, l).vals, B(sc, l).sigs) # "ok" THEN [x |-> bw.x, res |-> "other"]
+                 ELSE bw
             ELSE LET c == StoredBefore(sc, cl, B(sc, l).h) IN
                  IF sc.cfg.mode = "seq" THEN VerifySequential(sc, x, c, l, now, sched)
                  ELSE VerifySkippingAgainstPrimary(sc, x, c, l, now, sched) IN
@@ -553,7 +571,7 @@ InitClient(sc, primary, wits, cnt, rootH, rootHid, sched) ==
     ELSE IF VerifyCommitLight(B(sc, f.b).vals, B(sc, f.b).sigs) # "ok" THEN [x |-> f.x, res |-> "other"]
     ELSE IF Len(f.x.cl.wits) = 0 THEN [x |-> f.x, res |-> "NoWitnesses"]
     ELSE LET x1 == [f.x EXCEPT !.ph = "det", !.fan = @ + 1]
-             c  == CompareAll(sc, x1, x1.cl.wits, f.b, 1, << >>)
+             c  == CompareAll(sc, x1, x1.cl.wits, f.b, 1, << >>, FALSE)
              r  == FirstLoop(sc, c.x, Channel(OrderAt(sched, x1, x1.cl.wits), c.rep), 1, {}) IN
          IF r.res # Nil THEN r
          ELSE [x |-> [r.x EXCEPT !.cl.store = {f.b}, !.cl.latest = f.b], res |-> Nil]
